@@ -1,0 +1,40 @@
+//! Verification hooks, only compiled with cargo feature `gohla_pie_verif`. Read-only; does not change behaviour.
+
+use crate::tracker::Tracker;
+use crate::Pie;
+
+pub use crate::trait_object::task::OutputCheckerObj;
+
+/// One outgoing dependency of a task node, as debug text.
+#[derive(Clone, Debug, PartialEq, Eq)]
+pub struct VerifEdge {
+  /// `reserved`, `require`, `read` or `write`.
+  pub kind: &'static str,
+  /// Debug text of the target task or resource.
+  pub target: String,
+  /// Debug text of the checker.
+  pub checker: String,
+  /// Debug text of the stamp.
+  pub stamp: String,
+}
+
+/// One node of the dependency store.
+#[derive(Clone, Debug, PartialEq, Eq)]
+pub struct VerifNode {
+  pub is_task: bool,
+  /// Debug text of the task or resource.
+  pub key: String,
+  /// Debug text of the cached output, if any.
+  pub output: Option<String>,
+  /// Topological rank of the node.
+  pub rank: u32,
+  /// Outgoing dependencies in iteration order.
+  pub edges: Vec<VerifEdge>,
+  /// Debug text of the sources of incoming dependencies in iteration order.
+  pub incoming: Vec<String>,
+}
+
+impl<A: Tracker> Pie<A> {
+  /// Read-only dump of the dependency store.
+  pub fn verif_dump(&self) -> Vec<VerifNode> { self.0.verif_dump() }
+}
